@@ -316,7 +316,14 @@ class Oracle:
 
         # --- outcome ---------------------------------------------------------------
         if obs.exc is not None:
-            if not failing and not natural_missing:
+            warned = self.c19 and w.knobs.get("warnings_error") and isinstance(obs.exc, Warning)
+            if warned:
+                # the process turns warnings into errors: the library's own warning (tolerated miss, enlargement)
+                # surfaced as an exception; the request raised, which C19 accepts - what it leaves behind is
+                # still checked below and in later requests
+                self.probe("warning_raised_as_error")
+                self.tainted = True
+            if not failing and not natural_missing and not warned:
                 clause = "19d-poison" if self.c19 else "18a"
                 return self._v(clause, "request %s raised %r although nothing failed in it" % (req, obs.exc), obs)
             self.probe("get_raised_after_fault")
